@@ -218,16 +218,17 @@ public:
     {
       return false;
     }
-    if (_opt.maxTotalTokens != 0 && _producedTokens >= _opt.maxTotalTokens)
-    {
-      return fail("token limit exceeded");
-    }
-
     skipWhitespaceOutsideText();
     if (eof())
     {
       emitEof();
       return false;
+    }
+    // Checked only once another token is known to follow: a document of exactly
+    // maxTotalTokens tokens ends with Eof, not with an error.
+    if (_opt.maxTotalTokens != 0 && _producedTokens >= _opt.maxTotalTokens)
+    {
+      return fail("token limit exceeded");
     }
 
     std::size_t startOffset = _cur;
